@@ -713,7 +713,11 @@ func autoRangeRule(c *core.Check, r *core.Rule) {
 			return // a range copied from the descriptors
 		}
 		found++
-		const minInt, maxInt = -1 << 63, 1<<63 - 1
+		// the extreme values of int on the platform of the analysed build
+		var minInt, maxInt int64 = -1 << 63, 1<<63 - 1
+		if pk := p.ByPath["css/counters"]; pk != nil && pk.TypesSizes != nil && pk.TypesSizes.Sizeof(types.Typ[types.Int]) == 4 {
+			minInt, maxInt = -1<<31, 1<<31-1
+		}
 		if idx == 0 {
 			r.Cond(set[minInt], "css/counters.renderValue | lower bound of the automatic range", p.Pos(st.Pos()), "the smallest integer is one of the lower bounds (the systems defined for every integer)",
 				fmt.Sprintf("the lower bounds of the automatic range are %v: decimal, the last resort, refuses the integers below and falls back to itself until the stack is exhausted", keysOf(set)))
